@@ -7,4 +7,5 @@ export CARGO_NET_OFFLINE=true
 mkdir -p build evidence
 ( cd coq && coq_makefile -f _CoqProject -o Makefile >/dev/null && timeout 3000 make -j16 >build.log 2>&1 || { tail -40 build.log; exit 1; } )
 ( cd harness && CARGO_TARGET_DIR=/verif/build/target RUSTFLAGS="--cfg cucumber_rs_cucumber_verif" timeout 3000 cargo build --offline --quiet 2>&1 | tail -5 )
+( cd harness-tracing && CARGO_TARGET_DIR=/verif/build/target-harness-tracing RUSTFLAGS="--cfg cucumber_rs_cucumber_verif" timeout 3000 cargo build --offline --quiet 2>&1 | tail -5 )
 echo "setup done"
